@@ -721,10 +721,18 @@ class WorkWorld(World):
             for _ in range(6):
                 p, c = rng.choice(subs)
                 plan.append({'op': 'parse', 'damage': {'path': list(p), 'seed': rng.getrandbits(32), 'how': rng.choice(['ones', 'random', 'same-max', 'long-max', 'flip'])}})
+            # an edge label LONGER than the key bits that remain is not a dictionary at all; below it sits a ladder of shared
+            # cells (both references to the next cell) that ends in a library cell: a parser that walks on with a negative
+            # remaining length visits 2^depth paths of a ~100-byte input
+            plan.append({'op': 'parse_overlong', 'depth': rng.choice([12, 20, 30, 60]), 'form': rng.choice(['short', 'long', 'same']), 'below': rng.choice([0, 0, 1, 2]),
+                         'over': rng.choice([1, 2, 5])})
         else:
-            plan = [o for o in ops if o['op'] == 'parse']
+            plan = [o for o in ops if o['op'] in ('parse', 'parse_overlong')]
         ctx.tag(w, kind, len(keys), aug)
         for op in plan:
+            if op['op'] == 'parse_overlong':
+                self._overlong(ctx, op, w, aug)
+                continue
             tree = root
             d = op['damage']
             if d is not None:
@@ -769,6 +777,54 @@ class WorkWorld(World):
             elif st == 'ok' and d is None and not aug:
                 if res is None or len(res) != len(keys):
                     ctx.count('dict-parse-count-mismatch')
+
+    def _overlong(self, ctx, op, w, aug):
+        from refmodel.rcell import library_ref_of
+        below = min(op['below'], max(0, w - 1))
+        m = w - below                                  # key bits that remain at the cell carrying the bad label
+        n = m + op['over']
+        form = op['form']
+        lb = m.bit_length()
+        if form != 'short' and n >= (1 << lb):
+            n = (1 << lb) - 1
+        if n <= m or 2 + lb + n > 1000:
+            form, n = 'short', m + 1
+            if 2 + 2 * n > 1000:
+                return
+        if form == 'short':
+            label = '0' + '1' * n + '0' + '10' * (n // 2) + '1' * (n % 2)
+        elif form == 'long':
+            label = '10' + enc_uint(n, lb) + ('10' * n)[:n]
+        else:
+            label = '111' + enc_uint(n, lb)
+        extra = (enc_uint(0, 8) if aug else '')
+        cur = library_ref_of(bytes(32))
+        for i in range(op['depth']):
+            cur = RCell('00' + extra, (cur, cur))
+        try:
+            cur = RCell(label + extra, (cur, cur))
+            for i in range(below):
+                cur = RCell('00' + extra, (cur, cur))      # valid forks (empty labels) above the bad cell
+        except RCellError:
+            return
+        cells = op['depth'] + below + 2
+        budget = dag_budget(cells, 2 * (cells - 1))
+        lc = lib_cell_from_rcell(cur)
+        if aug:
+            thunk = lambda: parse_hashmap_aug(lc.begin_parse(), w, lambda s: s.load_uint(8), lambda s: s.load_uint(8))
+            what = 'parse_hashmap_aug'
+        else:
+            thunk = lambda: HashMap.parse(lc.begin_parse(), w)
+            what = 'HashMap.parse'
+        ctx.fault('dict-label-longer-than-remaining-key/' + form)
+        st, res, steps = metered(budget, thunk)
+        ctx.op(op)
+        ctx.evaluated(1)
+        ctx.tick(steps)
+        ctx.obs(st, steps)
+        if st == 'budget':
+            self.V(ctx, 'budget-exceeded', what, 'label-longer-than-key-over-shared-cells',
+                   '%s (key width %d) of %d cells whose label is %d bits with %d key bits left did not finish within %d steps' % (what, w, cells, n, m, budget))
 
     def shrink_op(self, op):
         return ()
